@@ -17,6 +17,9 @@ They are proved once per combinator (Proofs/WireCodec.lean); each instance below
 import NeoModel.Proofs.WireVarUint
 import NeoModel.Proofs.WireCodec
 import NeoModel.Proofs.WireTx
+import NeoModel.Proofs.WireItem
+import NeoModel.Proofs.WireMpt
+import NeoModel.Proofs.WireNef
 namespace NeoModel.Wire
 open Codec
 open NeoModel.Generated
@@ -201,5 +204,117 @@ theorem stateroot_lawful : stateRootC.Lawful := stateRootC_lawful
 
 /-- C17 (extensible payload): all laws. -/
 theorem extensible_lawful : extensibleC.Lawful := extensibleC_lawful
+
+
+/-! ## stack items (count / size / nesting limits) -/
+
+/-- C17 (stack item) roundtrip: every well-formed item with at most MaxDeserialized items decodes from its
+serialisation (followed by anything) to itself. `wfB`: byte strings ≤ MaxSize, integers canonical and ≤ 32 bytes,
+map keys primitive, ≤ MaxKeySize and pairwise different, no interop/pointer/nil. -/
+theorem item_roundtrip (v : Item) (r : Bytes) (hw : Item.wfB v = true)
+    (hc : Item.count v ≤ WireLimits.stackMaxDeserialized) :
+    Item.decode false (Item.enc v ++ r) = some (v, r) := by
+  have h := Item.rt_all (Item.count v) v (Nat.le_refl _) hw (WireLimits.stackMaxDeserialized + 1)
+    WireLimits.stackMaxDeserialized r hc (by omega) (by decide)
+  simp only [Item.decode, h, Option.map_some]
+
+/-- C17 (stack item) what `Serialize` produces is within both limits and is read back by `Deserialize`
+(the limits of the two directions agree: MaxSerialized ≤ MaxDeserialized, regenerated). -/
+theorem item_serialize_roundtrip (v : Item) (b r : Bytes) (hw : Item.wfB v = true)
+    (hs : Item.serialize false v = some b) :
+    b.length ≤ WireLimits.stackMaxSize ∧ Item.count v ≤ WireLimits.stackMaxSerialized
+      ∧ Item.decode false (b ++ r) = some (v, r) := by
+  simp only [Item.serialize] at hs
+  split at hs
+  · simp at hs
+  · split at hs
+    · simp at hs
+    · split at hs
+      · simp at hs
+      · rename_i h1 _ h3
+        simp at hs
+        subst hs
+        have hle : WireLimits.stackMaxSerialized ≤ WireLimits.stackMaxDeserialized := by decide
+        exact ⟨by omega, by omega, item_roundtrip v r hw (by omega)⟩
+
+/-- C17 (stack item) reencode_stable: whatever the unprotected decoder accepts is well-formed; if the serialiser
+accepts it (total size ≤ MaxSize — the decoder itself does not bound the total, see the known finding
+`item-reencode-fails`), the re-encoding decodes to the same item with nothing left. -/
+theorem item_reencode_stable (b : Bytes) (v : Item) (r e : Bytes) (hd : Item.decode false b = some (v, r))
+    (hs : Item.serialize false v = some e) : Item.wfB v = true ∧ Item.decode false e = some (v, []) := by
+  simp only [Item.decode, Option.map_eq_some_iff] at hd
+  obtain ⟨⟨v', r', l'⟩, hdec, he⟩ := hd
+  simp at he
+  obtain ⟨e1, e2⟩ := he
+  subst e1 e2
+  have hw := Item.decItem_wf _ _ _ _ _ _ hdec
+  have := (item_serialize_roundtrip v' e [] hw hs).2.2
+  simp only [List.append_nil] at this
+  exact ⟨hw, this⟩
+
+/-- C17 (stack item) decoders are bounded: for ANY input (protected form or not) an accepted item has at most
+MaxDeserialized items in all (every array/map size was compared with what was left of the counter before the
+elements were read), and decoding consumed input. -/
+theorem item_dec_bounded (prot : Bool) (b : Bytes) (v : Item) (r : Bytes) (hd : Item.decode prot b = some (v, r)) :
+    Item.count v ≤ WireLimits.stackMaxDeserialized ∧ r.length < b.length := by
+  simp only [Item.decode, Option.map_eq_some_iff] at hd
+  obtain ⟨⟨v', r', l'⟩, hdec, he⟩ := hd
+  simp at he
+  obtain ⟨e1, e2⟩ := he
+  subst e1 e2
+  have := Item.decItem_good prot _ _ _ _ _ _ hdec
+  omega
+
+-- non-vacuity: a nested item (array of a map and an integer) round-trips; 2049 nulls do not fit
+example : Item.decode false (Item.enc (.array [.map [(.int [5], .bool true)], .int [0x80, 0x00]]) ++ [7])
+    = some (.array [.map [(.int [5], .bool true)], .int [0x80, 0x00]], [7]) :=
+  item_roundtrip _ _ (by decide) (by decide)
+set_option maxRecDepth 100000 in
+example : Item.serialize false (.array (List.replicate 2048 .null)) = none := by decide
+
+/-! ## MPT nodes -/
+
+/-- C17 (MPT node) roundtrip: the encoding of a node within the caps (`Node.WF`) decodes to the node with its
+children replaced by their references (`flatten`; the decoder also accepts children written inline, the encoder
+never writes them) — for a node as the trie stores it (`flatten H v = v`) this is the exact round trip.
+`H` = double SHA-256, of which only the output length is used. -/
+theorem mpt_roundtrip (H : Bytes → Bytes) (h32 : ∀ x, (H x).length = 32) (v : Node) (hw : Node.WF v) (r : Bytes) :
+    Node.decode (Node.enc H v ++ r) = some (Node.flatten H v, r) := Node.decode_enc H h32 v hw r
+
+/-- C17 (MPT node) reencode_stable with the same hash: an accepted input gives a node within the caps; its
+re-encoding decodes (to the flat form of the node), and bytes and hash of the flat form are those of the node. -/
+theorem mpt_reencode_stable (H : Bytes → Bytes) (h32 : ∀ x, (H x).length = 32) (b : Bytes) (v : Node) (r : Bytes)
+    (hd : Node.decode b = some (v, r)) :
+    Node.WF v ∧ Node.decode (Node.enc H v) = some (Node.flatten H v, [])
+      ∧ Node.enc H (Node.flatten H v) = Node.enc H v ∧ Node.hashOf H (Node.flatten H v) = Node.hashOf H v := by
+  have hs := Node.decNode_spec _ _ _ _ _ hd
+  have := Node.decode_enc H h32 v hs.2.1 []
+  simp only [List.append_nil] at this
+  exact ⟨hs.2.1, this, Node.enc_flatten H v, Node.hashOf_flatten H v⟩
+
+/-- C17 (MPT node) decoding consumes input strictly (nesting is bounded by maxPathLength, every node costs at
+least its type byte). -/
+theorem mpt_dec_consumes (b : Bytes) (v : Node) (r : Bytes) (hd : Node.decode b = some (v, r)) :
+    r.length < b.length := (Node.decNode_spec _ _ _ _ _ hd).1
+
+-- non-vacuity: an extension node over a hash child round-trips exactly; nesting 137 deep is rejected
+example : Node.decode (Node.enc (fun _ => List.replicate 32 0) (.ext [1, 2] (.hash (List.replicate 32 7))) ++ [9])
+    = some (.ext [1, 2] (.hash (List.replicate 32 7)), [9]) := by
+  have := mpt_roundtrip (fun _ => List.replicate 32 0) (by simp) (.ext [1, 2] (.hash (List.replicate 32 7)))
+    ⟨by decide, by simp [Node.childOK]⟩ [9]
+  simpa [Node.flatten, Node.asRef] using this
+
+/-! ## NEF file -/
+
+/-- C17 (NEF): all laws, for any checksum function `H` (roundtrip, size, re-encoding stability, allocation bound:
+the token array is capped at nefMaxTokens, regenerated from the source). -/
+theorem nef_lawful (H : Bytes → Bytes) : (nefC H).Lawful := nefC_lawful H
+
+/-- C17 (NEF) an accepted file carries the checksum of the canonical encoding of its fields. -/
+theorem nef_checksum (H : Bytes → Bytes) (b : Bytes) (n : Nef) (r : Bytes) (hd : (nefC H).dec b = some (n, r)) :
+    n.checksum = checksumOf H (nefBodyC.enc n.body) := by
+  have hw := (nefC_lawful H).dec_wf b n r hd
+  have := hw.1.2
+  simpa using this
 
 end NeoModel.Wire
